@@ -218,10 +218,21 @@ func (r *rtType) collided(v engine.Vec) int {
 
 // skip pin=set-collided where there is no collision or the member is set anyway
 func (r *rtType) skip(v engine.Vec) bool {
+	fi := r.collided(v)
 	if v[len(r.fields)+1] == 0 {
+		// A key colliding with a member that is NOT set is judged Either; such
+		// vectors are enumerated with at most one other member deviating.
+		if fi >= 0 && v[fi] == 0 {
+			n := 0
+			for _, x := range v[:len(r.fields)] {
+				if x != 0 {
+					n++
+				}
+			}
+			return n >= 2
+		}
 		return false
 	}
-	fi := r.collided(v)
 	return fi < 0 || v[fi] != 0 || len(r.space[fi].Vals) < 2
 }
 
